@@ -213,11 +213,35 @@ def rule_r3(ctx) -> List[R.Inst]:
     M = ctx.M
     insts = []
     classes = [c for c in M.classes if CTL not in c and (ST in M.mro(c) or c == LOCIX or LOCIX in M.mro(c))]
+    # methods that are a complete write path themselves: a store through a PARAMETER (the caller hands in the stacked frame or its
+    # loc indexer) followed by the write-back on every path.  A call of such a method is a write and its write-back in one.
+    complete = set()
+    for c in sorted(classes):
+        for q, fn in sorted(M.funcs.items()):
+            if fn.cls != c or fn.outer_fn is not None:
+                continue
+            ps_ = set(params_of(fn.node)) - {"self", "cls"}
+            pw = [n for n in walk_no_nested(fn.node) if isinstance(n, (ast.Assign, ast.AugAssign)) and any(
+                isinstance(t, ast.Subscript) and isinstance(t.value, ast.Name) and t.value.id in ps_
+                for t in (n.targets if isinstance(n, ast.Assign) else [n.target]))]
+            if pw and all(p.exit == "raise" or last_index(p, lambda x: x in pw) < last_index(p, _is_update_call)
+                          for p in paths_through(fn.node.body)):
+                complete.add(fn.name)
+
+    def _writes(n):
+        if _is_stack_write(n):
+            return True
+        return isinstance(n, ast.Call) and isinstance(n.func, ast.Attribute) and n.func.attr in complete
+
+    def _updates(n):
+        return _is_update_call(n) or (isinstance(n, ast.Call) and isinstance(n.func, ast.Attribute) and n.func.attr in complete)
     for c in sorted(classes):
         for q, fn in sorted(M.funcs.items()):
             if fn.cls != c or fn.outer_fn is not None or fn.name in ("__init__",):
                 continue
-            writes = [n for n in walk_no_nested(fn.node) if _is_stack_write(n)]
+            writes = [n for n in walk_no_nested(fn.node) if _writes(n)]
+            if fn.name in complete and not writes:
+                writes = [n for n in walk_no_nested(fn.node) if isinstance(n, (ast.Assign, ast.AugAssign))][:1]
             if not writes:
                 continue
             file, line = fn_loc(M, q)
@@ -226,11 +250,17 @@ def rule_r3(ctx) -> List[R.Inst]:
             for p in paths_through(fn.node.body):
                 if p.exit == "raise":
                     continue
-                w = last_index(p, _is_stack_write)
+                w = last_index(p, _writes)
+                if fn.name in complete:
+                    w = max(w, last_index(p, lambda x: isinstance(x, (ast.Assign, ast.AugAssign)) and any(
+                        isinstance(t, ast.Subscript) for t in (x.targets if isinstance(x, ast.Assign) else [x.target]))))
                 if w < 0:
                     continue
-                u = last_index(p, _is_update_call)
-                if u <= w:  # the update must come after the (last) write on this path
+                u = last_index(p, _updates)
+                both = u == w and any(isinstance(x, ast.Call) and isinstance(x.func, ast.Attribute) and x.func.attr in complete
+                                      for x in ast.walk(p.events[w]))
+                if u < w or (u == w and not both):
+                    # the update must come after the (last) write on this path (a call of a complete write path is both)
                     bad = p
                     break
             if bad is None:
